@@ -15,19 +15,19 @@ CHECKS = {
    text="Every byte string up to length 3 (thorough; quick a subset covering every in-range opcode), all strings of length 4..6 over an 18-byte alphabet, and every truncation and single-byte substitution of PRNG programs are fed to ParseAll/ToString, the VM's Parse* chain and Vm.Run; a panic, success on input the validator classifies as malformed, or a result that depends on bytes beyond the slice is a violation.",
    note="Trusted: the strict validator. NOOP (opcode 0) and rejection of complete-valid input are don't-care. Vm.Run: runtime-error panics only."),
  "C16": dict(engine="codec", category="exploration", design="§3 C16",
-   technique="runtime monitor: generated assembly sources (AST printed to text) assembled by asm.Parse, output decoded by an independent decoder and compared with the AST; concurrent assembly compared with sequential; the dev/asm command built from the tree and run as a process with its flag preprocessor, reading a file or a pipe",
+   technique="runtime monitor: generated assembly sources (AST printed to text) assembled by asm.Parse, output decoded by an independent decoder and compared with the AST; concurrent assembly compared with sequential; the dev/asm command built from the tree and run as a process with its flag preprocessor, reading a file or a pipe; assembly into writers that fill up",
    text="Tens of thousands (quick) to a million (thorough) sources over every opcode, all token classes of the documented grammar, all numeric widths and batch groups are assembled; the emitted bytecode must decode to exactly the instructions written. Half of the sources contain only token classes with no recorded finding so a new break cannot hide behind a known one.",
    note="Trusted: the harness decoder and the expansion table transcribed from instructions.texi. Known findings (numeric-first lexing, upper-case initial) are listed in KNOWN_FINDINGS.txt by token class."),
  "C13": dict(engine="pgfake", category="fault_enumeration", design="§3 C13",
-   technique="runtime monitor with fault injection: exhaustive operation sequences x every single and double failing driver primitive (begin, exec, query, next, scan, commit, rollback), including a Put with no data type selected, against an in-process transactional fake of the pgx interface; oracle over the driver call log, acknowledged-write reference map and committed map at quiescence",
+   technique="runtime monitor with fault injection: exhaustive operation sequences x every single and double failing driver primitive (begin, exec, query, next, scan, commit, rollback), including a Put with no data type selected, against an in-process transactional fake of the pgx interface; oracle over the driver call log, acknowledged-write reference map and committed map at quiescence; WithConnection(same pool) on the live store as a further operation",
    text="All client-legal sequences up to length 4 (quick) / 5 plus 400k longer PRNG sequences (thorough), each with every choice of 0, 1 or 2 failing primitive calls (begin/exec/query/next/scan/commit): the faulted operation must report an error, no panic, fault-free operations outside a dirty transaction must succeed and return acknowledged values, every transaction must be finished by Close, and the committed map must match the acknowledged writes.",
    note="Trusted base: pgfake's model of Postgres/pgx transaction semantics (no real Postgres offline). Dirty explicit transactions are don't-care. One recorded finding family (sticky multi mode after Stop, pinned by the repository's own test)."),
  "C07": dict(engine="sessions-differential", category="exploration", design="§3 C07",
-   technique="runtime monitor: two-run differential (long-lived engine vs fresh engine+persister+store handle per request) over generated applications and histories on four backends, plus snapshot re-read equality; two interleaved sessions per store with a persister of their own or one shared persister object (flushing / plain) and requests abandoned before Finish; engine.Loop as the driver (whole history, one call per request); sessions 12..100 levels deep; sessions started from prepared state and cache objects",
+   technique="runtime monitor: two-run differential (long-lived engine vs fresh engine+persister+store handle per request) over generated applications and histories on four backends, plus snapshot re-read equality; two interleaved sessions per store with a persister of their own or one shared persister object (flushing / plain) and requests abandoned before Finish; engine.Loop as the driver (whole history, one call per request); sessions 12..100 levels deep; sessions started from prepared state and cache objects; saves refused once by the store and repeated by the client; sessions with more than 1024 visible symbols",
    text="The same generated application, configuration and input history are served by one long-lived engine and by a new engine per request over mem, fs, fs-binary and the Postgres driver fake; outputs, continue flags and error classes must agree step by step to the end of the session, and after every save the snapshot read back through a fresh handle must equal the live state/cache. No model is involved.",
    note="Assumes error classes (not texts) are what the client observes; histories end at the first failing request. Trusted: harness drivers and pgfake."),
  "C08": dict(engine="sessions-differential", category="exploration", design="§3 C08",
-   technique="runtime monitor: recover() + structural invariants at quiescent points over a breadth-first exploration of the session state graph (stored snapshot as branch point) and long PRNG walks, on the repository's example applications and generated well-formed ones",
+   technique="runtime monitor: recover() + structural invariants at quiescent points over a breadth-first exploration of the session state graph (stored snapshot as branch point) and long PRNG walks, on the repository's example applications and generated well-formed ones; explorations with state.MaxLevel lowered by the application",
    text="Every example application of the repository and hundreds/thousands of generated well-formed applications are explored breadth-first to depth 4/6 over their whole selector alphabet plus hostile inputs, then walked for up to 400 requests; after every request: no panic, one cache scope per stack level, size accounting exact, limits respected, the session saves, loads and equals the live one.",
    note="States after a failed request are checked but not extended in the exhaustive part. Op cap on callbacks turns runaway execution into a violation; a loop without callbacks is caught by the worker watchdog (inconclusive)."),
  "C17": dict(engine="sessions-differential", category="exploration", design="§3 C17",
@@ -35,7 +35,7 @@ CHECKS = {
    text="For generated applications and histories a refused input (every byte that cannot start an input, '+' forms, newlines, invalid UTF-8, 256..70000 bytes) is inserted at every position; the refused request must fail without callbacks or output, the snapshots around it must be equal, and all later requests must equal the run without it. Flush before the first Exec is checked the same way.",
    note="The harness's own reading of the accepted input format decides what must be refused. No WithFirst hook installed."),
  "C19": dict(engine="conc-race", category="exploration", design="§3 C19",
-   technique="Go race detector (-race build, GORACE log parsed and de-duplicated) + transcript equality against a sequential reference and against the same session served alone by a fresh process + canary check of shared slices, over rounds of 2..16 concurrently served sessions (one or two applications, debug features on in a third of the rounds, one application logger with a session context key shared by all sessions) with PRNG yields inside resource callbacks",
+   technique="Go race detector (-race build, GORACE log parsed and de-duplicated) + transcript equality against a sequential reference and against the same session served alone by a fresh process + canary check of shared slices, over rounds of 2..16 concurrently served sessions (one or two applications, debug features on in a third of the rounds, one application logger with a session context key shared by all sessions) with PRNG yields inside resource callbacks; external functions that list their notes in the shared store directory while other sessions write",
    text="Rounds of 2..16 goroutines each serve an own session (four driver/backend combinations) over one shared application whose code slices have canary-filled spare capacity; any race report with a library frame, any transcript that differs from the same session served alone, or any modified shared byte is a violation. Evidence reports goroutines, callbacks and cross-session switches observed.",
    note="Covers only the schedules that occurred. Harness-only race reports make the run inconclusive (monitor defect), never a pass."),
  "C01": dict(engine="render", category="exploration", design="§3 C01",
@@ -55,7 +55,7 @@ CHECKS = {
    text='Generated node graphs are navigated with histories of up to 40 inputs in the long-lived and persisted drivers; after every request State.ExecPath/SizeIdx (live and decoded from the store) must equal the documented move table applied to the moves executed, and failing moves must fail the request.',
    note="Trusted base: the SpecVM model (harness/specvm) written from doc/texinfo and the property statements; don't-care where they are silent (state after a failed request, internal flags, paginated pages). Histories are PRNG-determined; held-on-observed only."),
  "C05": dict(engine="sessions-model", category="exploration", design="§3 C05",
-   technique="runtime monitor: lock-step executable reference model (SpecVM) over recorded histories at the API boundary (recording resource, live State/Cache objects, decoded stored snapshot), this property's projection only (external-call log, cache scopes, page text, limit check)",
+   technique="runtime monitor: lock-step executable reference model (SpecVM) over recorded histories at the API boundary (recording resource, live State/Cache objects, decoded stored snapshot), this property's projection only (external-call log, cache scopes, page text, limit check); two sessions with more than 1024 visible symbols",
    text='Programs that load the same symbols at several depths, reload, map and move are served with histories that descend, ascend and re-enter; the call log, the cache contents per scope (live and stored) and every non-paginated page must equal the model, and no over-limit value may be stored (lengths up to 70000).',
    note="Trusted base: the SpecVM model (harness/specvm) written from doc/texinfo and the property statements; don't-care where they are silent (state after a failed request, internal flags, paginated pages). Histories are PRNG-determined; held-on-observed only."),
  "C06": dict(engine="sessions-model", category="exploration", design="§3 C06",
@@ -63,19 +63,19 @@ CHECKS = {
    text="Every in-range flag index (all for counts <= 64, boundaries above; all in thorough) is exercised as CATCH and CROAK operand in both modes; generated applications are run twice with and without reserved indices in the functions' flag lists and must be indistinguishable down to the Flags bytes; while TERMINATE is set no output, callback or move may happen until the harness clears it.",
    note="Trusted base: the SpecVM model (harness/specvm) written from doc/texinfo and the property statements; don't-care where they are silent (state after a failed request, internal flags, paginated pages). Histories are PRNG-determined; held-on-observed only."),
  "C18": dict(engine="sessions-model", category="exploration", design="§3 C18",
-   technique="runtime monitor: lock-step executable reference model (SpecVM) over recorded histories at the API boundary (recording resource, live State/Cache objects, decoded stored snapshot), this property's projection only (language carried by every callback, State.Language, translated page text); dictionary-model monitor of the gettext resource over generated locale trees; differential of the DbResource-over-store deployment against the recording resource",
+   technique="runtime monitor: lock-step executable reference model (SpecVM) over recorded histories at the API boundary (recording resource, live State/Cache objects, decoded stored snapshot), this property's projection only (language carried by every callback, State.Language, translated page text); dictionary-model monitor of the gettext resource over generated locale trees; differential of the DbResource-over-store deployment against the recording resource; long-lived driver with the client setting TERMINATE after a failed request (model-free blocking invariant); DbStack leg (code, templates, labels, static loads and their translations in a store behind resource.DbResource, both naming schemes) compared with the recording resource; gettext leg against a dictionary model",
    text="Applications with language switchers (valid 2/3-letter codes, invalid strings, empty) and partial translations are served in four driver/backend combinations; every GetCode/FuncFor/function/GetTemplate/GetMenu callback must carry the model's language, the stored State.Language must equal it, and pages must show translation-or-default text.",
    note="Trusted base: the SpecVM model (harness/specvm) written from doc/texinfo and the property statements; don't-care where they are silent (state after a failed request, internal flags, paginated pages). Histories are PRNG-determined; held-on-observed only. The DbResource lookup path (key suffixing) is exercised by C10."),
  "C20": dict(engine="sessions-model", category="exploration", design="§3 C20",
-   technique="runtime monitor: lock-step executable reference model (SpecVM) over recorded histories at the API boundary (recording resource, live State/Cache objects, decoded stored snapshot), this property's projection only (continue flag, final output, restart position, cache emptiness, client flags, blocked requests)",
+   technique="runtime monitor: lock-step executable reference model (SpecVM) over recorded histories at the API boundary (recording resource, live State/Cache objects, decoded stored snapshot), this property's projection only (continue flag, final output, restart position, cache emptiness, client flags, blocked requests); a share of the cases repeated in a second binary built with -tags logtrace (logging compiled in, output discarded)",
    text='Applications with both kinds of end nodes, TERMINATE-setting functions and CROAK are driven past the end of the session over several end/restart cycles on mem, fs and the Postgres fake; graceful ends must deliver page+exit value and restart at the entry node with an empty cache and the client flags kept; terminated sessions must stay silent until the flag is cleared.',
    note="Trusted base: the SpecVM model (harness/specvm) written from doc/texinfo and the property statements; don't-care where they are silent (state after a failed request, internal flags, paginated pages). Histories are PRNG-determined; held-on-observed only."),
  "C10": dict(engine="refstore", category="exploration", design="§3 C10",
-   technique="runtime monitor: lock-step reference map over recorded store operations, the same sequence applied to mem, fs, fs-binary and the Postgres driver fake (each compared with the model and thereby with each other), including resource.DbResource getters and fs listings; caller-owned key/value buffers are overwritten after every call (aliasing oracle); enumerated translation family; listings abandoned before compared listings; write faults by RLIMIT_FSIZE on the fs store",
+   technique="runtime monitor: lock-step reference map over recorded store operations, the same sequence applied to mem, fs, fs-binary and the Postgres driver fake (each compared with the model and thereby with each other), including resource.DbResource getters and fs listings; caller-owned key/value buffers are overwritten after every call (aliasing oracle); enumerated translation family; listings abandoned before compared listings; write faults by RLIMIT_FSIZE on the fs store; values with byte order marks, magic numbers, line ends and blanks at either end",
    text="PRNG sequences of Put/Get/SetPrefix/SetSession/SetLanguage/SetLock(seal)/Dump and DbResource lookups over well-formed keys (including the letters that double as fs type characters), dot-free session ids, text/binary/empty values and all six data types are applied to a reference map and to four backends; reads, not-found recognition, language fallback, lock refusal, sealing, the resource's refusal of unlocked stores and prefix listings must agree with the model.",
    note="Trusted: the reference map; pgfake for Postgres. Listings are compared for types without language scope. One recorded finding (empty session lists all sessions)."),
  "C11": dict(engine="refstore", category="exploration", design="§3 C11",
-   technique="runtime monitor: exhaustive ordered-pair isolation probes by bit-indexed write/read rounds with unique values over an adversarial address alphabet on four backends, each hit confirmed by an isolated two-address probe and attributed to a mechanism computed from the two addresses; every round read a second time through the handle with every data type locked; snapshot equality for sessions saved and loaded through one shared persister object (plain and flushing, also after a refused request); birthday family of over-long ids when the store accepts them",
+   technique="runtime monitor: exhaustive ordered-pair isolation probes by bit-indexed write/read rounds with unique values over an adversarial address alphabet on four backends, each hit confirmed by an isolated two-address probe and attributed to a mechanism computed from the two addresses; every round read a second time through the handle with every data type locked; snapshot equality for sessions saved and loaded through one shared persister object (plain and flushing, also after a refused request); birthday family of over-long ids when the store accepts them; data type and session selected before Connect; listings on fs and the Postgres fake",
    text="All ordered pairs of different (type, session, key) addresses from an adversarial alphabet (24 session ids x 24 keys x 2 sessioned types + 24 keys x 4 resource types = 1248 addresses quick; 60 x 60 alphabets thorough) are covered on mem, fs, fs-binary and the Postgres fake with 2*log2(n) rounds per backend: a written address must return its own value, an unwritten one nothing, an fs or Postgres listing only its own session's records. A confusion through any mechanism other than the recorded ones (separator ambiguity of sid.key; legacy file-name fallback for resource types) is a new violation.",
    note="Addresses whose Put fails count as not accepted by the backend. Mechanism attribution is computed by the harness from the two addresses only."),
  "C12": dict(engine="crash", category="fault_enumeration", design="§3 C12",
